@@ -110,6 +110,7 @@ structure Node where
   revs : List RevRow := []
   creds : List CredRec := []
   netRevs : List Revocation := []   -- leia collection "revocations"
+  deriving DecidableEq
 
 /-! ## issuer side -/
 
@@ -558,6 +559,26 @@ def verify (E : Env) (i : Bool) (w : World) (c : Cred) : Verdict × World :=
   match statusVerify E i w c with
   | (.revoked, w') => (.revoked, w')
   | (_, w') => (.ok, w')
+
+/-- `validateNutsCredentialID`: the first check of the validators of NutsOrganizationCredential and NutsAuthorizationCredential
+    (`resolver.GetDIDFromURL(credential.ID.String())` must equal the issuer; `credential.ID` is dereferenced before the
+    default validator's nil check). The default validator (every other credential type) has no such check. -/
+def validateNutsId (c : Cred) : Res Unit :=
+  match c.id with
+  | none => .panic "validateNutsCredentialID:credential.ID nil"
+  | some id => if prefixOf id != c.issuer then .err "validation" else .ok ()
+
+/-- `verifier.Verify` up to and including the revocation checks: the type-specific validator's id rule, then `verify` -/
+def verifyFull (E : Env) (i : Bool) (w : World) (c : Cred) (nutsType : Bool) : Verdict × World :=
+  if nutsType then
+    match validateNutsId c with
+    | .ok _ => verify E i w c
+    | .err e => (.err e, w)
+    | .panic s => (.err ("panic:" ++ s), w)
+  else
+    match c.id with
+    | none => (.err "validation", w)
+    | some _ => verify E i w c
 
 /-! ## histories on two nodes -/
 
